@@ -19,8 +19,8 @@ CONFIG = {
              'new-size same-stamp}: build, mutate, rebuild, unchanged rebuild; oracle = reference model with '
              'comparison values (HASH -> content only, METADATA -> (size, mtime_ns) only, the mode recorded in '
              'build N governs N->N+1): invoked set must equal the justified set in both directions, results and '
-             'trees must equal the model except where METADATA is documentedly blind (then only the invocation '
-             'sets are judged); plus random programs where every observed/built file of every committed build '
+             'trees must equal the model, which serves the recorded value of every operation it decides to be reusable '
+             '(so this also holds where METADATA is documentedly blind: the stale value is the specified one); plus random programs where every observed/built file of every committed build '
              'gets each mutation on a saved copy; evaluations = judged rebuilds; distinct_nontrivial = distinct '
              '(role, position, operation, mode, mutation, expected re-execution?) cells observed'),
     'exhaustive_layer': 'the factorial core (704 cells incl. 1 ns / 999 ns timestamp moves and tail-byte changes of 5 kB files: the readback role additionally x {producer METADATA|HASH-compared} x {fresh|preserved output timestamp}) (every cell enumerated in every run, split over shards)',
@@ -119,7 +119,10 @@ def judge(sh, w, program, sr, blind, tagsig):
     bad = False
     for d in sr.divs:
         sh.count('div:' + d['kind'])
-        if d['kind'] in KINDS or (d['kind'] in VALUE_KINDS and not blind):
+        # (the reference model serves the RECORDED value of every operation it decides to be
+        #  reusable, so results and trees are comparable even where METADATA is documentedly
+        #  blind to a content change - `blind` is only counted)
+        if d['kind'] in KINDS or d['kind'] in VALUE_KINDS:
             sh.violation(signature(d) + '|' + tagsig, detail(d), case_of(w, program))
             bad = True
     return bad
@@ -224,7 +227,7 @@ def run_shard(sh):
             ok = True
             for _ in range(rng.randint(1, 2)):
                 sr = w.build(program, body, {}, label=ri)
-                if not sr.committed or any(d['kind'] in KINDS or not has_fixed for d in sr.divs):
+                if not sr.committed or sr.divs:
                     ok = False
                     break
             if not ok:
